@@ -221,7 +221,7 @@ impl Prop for C07 {
             use proptest::strategy::{Strategy, ValueTree};
             use proptest::test_runner::{Config, RngAlgorithm, TestRng, TestRunner};
             use std::io::Write;
-            let cfg = ShardCfg { tier: Tier::Quick, seed: input["seed"].as_u64().unwrap_or(0), shard: input["shard"].as_u64().unwrap_or(0) as u32, nshards: input["of"].as_u64().unwrap_or(1) as u32, journal: None };
+            let cfg = ShardCfg { tier: Tier::Quick, seed: input["seed"].as_u64().unwrap_or(0), shard: input["shard"].as_u64().unwrap_or(0) as u32, nshards: input["of"].as_u64().unwrap_or(1) as u32, journal: None, resume: None, out: None };
             let seed = cfg.rng_seed("C07", 0);
             let mut seed_bytes = [0u8; 32];
             for i in 0..4 {
